@@ -431,6 +431,30 @@ func TestC18Cross(t *testing.T) {
 			}
 		}
 	})
+	// many parties (thorough tier): an honest DKG with more than 64 parties and t = n-1 - the cross-check then covers the n
+	// subsets that leave one party out, so it stays affordable - and one off-polynomial key at the highest position
+	if vh.Thorough() {
+		p.Enumerate(t, st, func(yield func(cc) bool) {
+			for _, be := range []string{"bls", "ps"} {
+				for _, n := range []int{66} {
+					idx++
+					if idx%shards != shard%shards {
+						continue
+					}
+					if !yield(cc{c05Case{Backend: be, L: 1, N: n, T: n - 1, Byz: 1, Strategy: 0, Victims: []int{2}}, false}) {
+						return
+					}
+					c := c05Case{Backend: be, L: 1, N: n, T: n - 1, Byz: n, Strategy: 4, Arg: 0}
+					for h := 1; h < n; h++ {
+						c.Victims = append(c.Victims, h)
+					}
+					if !yield(cc{c, true}) {
+						return
+					}
+				}
+			}
+		})
+	}
 	st.SetExhaustive(complete)
 	st.Note("TestC18Cross: for BLS n<=%d and PS n<=%d, every (n,t): honest control accepted; for t<n every position j and every key component off the polynomial (consistently committed) must be rejected by every honest party", maxBLS, maxPS)
 }
